@@ -12,11 +12,11 @@ package executor
 
 //@ func NewDefaultExecutor
 //@   nomod
-//@   ensures result#1 == nil ==> result != nil
+//@   ensures result#1 == nil ==> result != nil && fresh(result)
 //@   ensures !exitOK(result#1)
 
 //@ func (*DefaultExecutor).Execute
-//@   requires e != nil && job != nil && job.Vars != nil
+//@   requires e != nil && job != nil && job.Vars != nil && job.Env != nil
 //@   modifies runN, runJob, runErr, job.Dir, e.*
 //@   ensures #at-most-one-run (runN == old(runN) && result#1 != nil && !exitOK(result#1)) || (runN == old(runN) + 1 && runJob[old(runN)] == job && runErr[old(runN)] == result#1)
 //@   ensures #log-prefix forall i int :: i < old(runN) ==> runJob[i] == old(runJob[i]) && runErr[i] == old(runErr[i])
